@@ -128,6 +128,7 @@ func outcomeOf(r callResult) string {
 
 // addRT runs Marshal(nil,&v) and Unmarshal into a fresh variable and records the observation.
 func (c *Ctx) addRT(tc *TypeCase, v reflect.Value, label string) {
+	c.crumb(fmt.Sprintf("%s cfg=%s type=%s value=%s", label, tc.Cfg, tc.T, trunc(fmt.Sprintf("%+v", v.Interface()), 400)))
 	var data []byte
 	r := safely(func() (err error) {
 		data, err = tc.P.Marshal(nil, v.Addr().Interface())
@@ -177,6 +178,7 @@ func trunc(s string, n int) string {
 // ---- codec laws (C05) ----
 
 func (c *Ctx) addLaws(tc *TypeCase, v reflect.Value, label string) {
+	c.crumb(fmt.Sprintf("%s cfg=%s type=%s value=%s", label, tc.Cfg, tc.T, trunc(fmt.Sprintf("%+v", v.Interface()), 400)))
 	var cd plenccodec.Codec
 	r := safely(func() (err error) {
 		cd, err = tc.P.CodecForType(tc.T)
@@ -224,6 +226,7 @@ func (c *Ctx) addLaws(tc *TypeCase, v reflect.Value, label string) {
 // ---- Marshal appends (C06) ----
 
 func (c *Ctx) addMarshal(tc *TypeCase, v reflect.Value, prefix []byte, spare int, byValue bool, label string) {
+	c.crumb(fmt.Sprintf("%s cfg=%s type=%s value=%s prefix=%x spare=%d byValue=%v", label, tc.Cfg, tc.T, trunc(fmt.Sprintf("%+v", v.Interface()), 400), prefix, spare, byValue))
 	buf := make([]byte, len(prefix), len(prefix)+spare)
 	copy(buf, prefix)
 	var arg any
@@ -253,6 +256,7 @@ func (c *Ctx) addMarshal(tc *TypeCase, v reflect.Value, prefix []byte, spare int
 
 // decodeInProcess runs Unmarshal(data, &target) with target pre-set to prior.
 func (c *Ctx) addDec(tc *TypeCase, data []byte, prior reflect.Value, label string, class string, nontrivial bool) {
+	c.crumb(fmt.Sprintf("%s cfg=%s type=%s data=%x", label, tc.Cfg, tc.T, data))
 	target := reflect.New(tc.T)
 	deepCopyInto(target.Elem(), prior)
 	priorTerm := coqVal(target.Elem())
@@ -394,6 +398,7 @@ func setAny(dst, v reflect.Value) {
 // ---- codec construction (C08) ----
 
 func (c *Ctx) addBuild(tc *TypeCase, tag string, label string, class string) {
+	c.crumb(fmt.Sprintf("%s cfg=%s type=%s tag=%q", label, tc.Cfg, tc.T, tag))
 	r := safely(func() error {
 		_, err := tc.P.CodecForTypeWithTag(tc.T, tag)
 		return err
